@@ -428,10 +428,33 @@ func isBisyncControlCommand(cmd bisyncAofCommand) bool {
 func isBisyncMirroredTransaction(cmds []bisyncAofCommand) bool {
 	// GunYu 自己独占 bisync namespace，因此 mirrored transaction 的最小判定
 	// 只需要确认事务首命令写入 marker。
+	// a master that finds the previous marker (or record) of the slot expired deletes it first and
+	// propagates that DEL/UNLINK in front of the new marker
+	for len(cmds) > 0 && isBisyncExpiryDeletion(cmds[0]) {
+		cmds = cmds[1:]
+	}
 	if len(cmds) == 0 {
 		return false
 	}
 	return isBisyncMarkerCommand(cmds[0])
+}
+
+// isBisyncExpiryDeletion reports a DEL/UNLINK of a key in the reserved namespace: what a master
+// propagates when a command touches a bookkeeping key whose expiry has passed.
+func isBisyncExpiryDeletion(cmd bisyncAofCommand) bool {
+	name := strings.ToLower(cmd.Cmd)
+	return (name == "del" || name == "unlink") && touchesBisyncNamespace(cmd)
+}
+
+// onlyBisyncExpiryDeletions reports whether every command collected so far is such a deletion
+// (true for none).
+func onlyBisyncExpiryDeletions(cmds []bisyncAofCommand) bool {
+	for _, c := range cmds {
+		if !isBisyncExpiryDeletion(c) {
+			return false
+		}
+	}
+	return true
 }
 
 func bisyncTxnDebugSummary(cmds []bisyncAofCommand) string {
@@ -602,7 +625,7 @@ func (ro *RedisOutput) parseAofReplayUnits(replayQuit usync.WaitCloser, reader *
 			continue
 		}
 
-		if !bypass && inTxn && len(txnCommands) == 0 {
+		if !bypass && inTxn && onlyBisyncExpiryDeletions(txnCommands) {
 			// the leading marker decides whether this transaction is one the tool wrote itself: it has
 			// to reach that decision even when the configured key filter does not let the reserved
 			// namespace through, or the mirrored transaction is taken for a foreign one and sent back
